@@ -385,7 +385,138 @@ func factsLimits(t *T) (string, error) {
 	}
 	sb.WriteString("(* MessageHashesMap.Insert: when rfc822.GetMessageHash fails the hash string is assigned a fallback value (hash of the\n   raw bytes) instead of returning the error, so every literal has a de-duplication key *)\n")
 	sb.WriteString("Definition fact_insert_falls_back_to_raw_hash : bool := " + coqBool(raw) + ".\n")
+	sorted, err := limHashParamsSorted(t)
+	if err != nil {
+		return "", err
+	}
+	sb.WriteString("(* rfc822.GetMessageHash: the names of the Content-Type parameters of a part are sorted (slices.Sort / sort.Strings on the\n   key slice) before the loop that writes them into the hash; the loop does not range over the map itself *)\n")
+	sb.WriteString("Definition fact_hash_params_sorted : bool := " + coqBool(sorted) + ".\n")
+	defRaw, err := limHashBodyDefaultRaw(t)
+	if err != nil {
+		return "", err
+	}
+	sb.WriteString("(* rfc822 hashBody: the switch over the Content-Transfer-Encoding of a text part has a default arm that takes the body as\n   it is, so every encoding other than base64 / quoted-printable contributes the body bytes *)\n")
+	sb.WriteString("Definition fact_hash_body_default_raw : bool := " + coqBool(defRaw) + ".\n")
 	return sb.String(), nil
+}
+
+// limHashParamsSorted inspects rfc822/hash.go GetMessageHash: a statement `K := maps.Keys(M)` must be followed, in the same
+// block, by a call that sorts K (slices.Sort(K), sort.Strings(K), slices.SortFunc(K, ..), sort.Slice(K, ..)) before the
+// `for .. := range K` loop; a loop ranging over M directly, or over K without the sort, gives false.
+func limHashParamsSorted(t *T) (bool, error) {
+	const rel = "rfc822/hash.go"
+	f, err := t.ParseFile(rel)
+	if err != nil {
+		return false, err
+	}
+	fd := FuncDecl(f, "", "GetMessageHash")
+	if fd == nil || fd.Body == nil {
+		return false, fmt.Errorf("rfc822.GetMessageHash not found")
+	}
+	found, sortedAll := false, true
+	ast.Inspect(fd.Body, func(n ast.Node) bool {
+		blk, ok := n.(*ast.BlockStmt)
+		if !ok {
+			return true
+		}
+		for i, st := range blk.List {
+			as, ok := st.(*ast.AssignStmt)
+			if !ok || len(as.Lhs) != 1 || len(as.Rhs) != 1 {
+				continue
+			}
+			call, ok := as.Rhs[0].(*ast.CallExpr)
+			if !ok {
+				continue
+			}
+			se, ok := call.Fun.(*ast.SelectorExpr)
+			if !ok || se.Sel.Name != "Keys" {
+				continue
+			}
+			key, ok := as.Lhs[0].(*ast.Ident)
+			if !ok {
+				continue
+			}
+			sorted := false
+			for _, later := range blk.List[i+1:] {
+				if es, ok := later.(*ast.ExprStmt); ok {
+					if c, ok := es.X.(*ast.CallExpr); ok && len(c.Args) >= 1 {
+						if fn, ok := c.Fun.(*ast.SelectorExpr); ok {
+							if arg, ok := c.Args[0].(*ast.Ident); ok && arg.Name == key.Name {
+								switch fn.Sel.Name {
+								case "Sort", "Strings", "SortFunc", "Slice", "SortStableFunc", "SliceStable":
+									sorted = true
+								}
+							}
+						}
+					}
+				}
+				if rs, ok := later.(*ast.RangeStmt); ok {
+					if x, ok := rs.X.(*ast.Ident); ok && x.Name == key.Name {
+						found = true
+						sortedAll = sortedAll && sorted
+					}
+				}
+			}
+		}
+		return true
+	})
+	// a loop over the parameter map itself writes in map order
+	mapRange := false
+	ast.Inspect(fd.Body, func(n ast.Node) bool {
+		if rs, ok := n.(*ast.RangeStmt); ok {
+			if x, ok := rs.X.(*ast.Ident); ok && x.Name == "values" {
+				mapRange = true
+			}
+		}
+		return true
+	})
+	if mapRange {
+		return false, nil
+	}
+	if !found {
+		return false, fmt.Errorf("GetMessageHash: no loop over the keys of the Content-Type parameters found")
+	}
+	return sortedAll, nil
+}
+
+// limHashBodyDefaultRaw inspects rfc822/hash.go hashBody: the switch over the transfer encoding must have a `default:` clause
+// that assigns the body parameter to the variable that is written into the hash afterwards (`decoded = body`).
+func limHashBodyDefaultRaw(t *T) (bool, error) {
+	const rel = "rfc822/hash.go"
+	f, err := t.ParseFile(rel)
+	if err != nil {
+		return false, err
+	}
+	fd := FuncDecl(f, "", "hashBody")
+	if fd == nil || fd.Body == nil {
+		return false, fmt.Errorf("rfc822 hashBody not found")
+	}
+	var sw *ast.SwitchStmt
+	ast.Inspect(fd.Body, func(n ast.Node) bool {
+		if s, ok := n.(*ast.SwitchStmt); ok && sw == nil {
+			sw = s
+		}
+		return true
+	})
+	if sw == nil {
+		return false, fmt.Errorf("hashBody: no switch over the transfer encoding found")
+	}
+	for _, st := range sw.Body.List {
+		cc, ok := st.(*ast.CaseClause)
+		if !ok || cc.List != nil {
+			continue
+		}
+		for _, b := range cc.Body {
+			if as, ok := b.(*ast.AssignStmt); ok && len(as.Lhs) == 1 && len(as.Rhs) == 1 && as.Tok == token.ASSIGN {
+				l, lok := as.Lhs[0].(*ast.Ident)
+				r, rok := as.Rhs[0].(*ast.Ident)
+				if lok && rok && l.Name == "decoded" && r.Name == "body" {
+					return true, nil
+				}
+			}
+		}
+	}
+	return false, nil
 }
 
 // limInsertFallsBack inspects internal/utils/message_hashmap.go Insert: `x, err := rfc822.GetMessageHash(literal)` must be
